@@ -94,7 +94,18 @@ class HasAccessibles(HasProperties):
                 # replace the bare value by the created accessible
                 setattr(cls, aname, aobj)
             elif cls.__dict__.get(aname) is aobj:
-                aobj.merge(merged_properties[aname])
+                if getattr(aobj, 'merged_in', cls) is not cls:
+                    # the same object is used in the body of an other class already:
+                    # merging in place would change that class
+                    own = aobj.ownProperties
+                    optional = aobj.optional
+                    aobj = aobj.clone(merged_properties[aname])
+                    aobj.ownProperties = dict(own)
+                    aobj.optional = optional
+                    setattr(cls, aname, aobj)
+                else:
+                    aobj.merged_in = cls
+                    aobj.merge(merged_properties[aname])
             else:
                 # inherited from a base class or mixin: do not merge in place, as the same
                 # object might be merged with other properties in an other subclass
